@@ -5,6 +5,7 @@ package wlrepl
 import (
 	"context"
 	"errors"
+	"fmt"
 	"runtime"
 	"strings"
 	"sync/atomic"
@@ -25,7 +26,8 @@ import (
 //	                    a manager operation is started (it completes in the same
 //	                    step unless it has to wait for the handler to notice)
 //	fetch r=ok|err      the handler's pending ListLogs is let through
-//	accept r=ok|fail|lost   the pending Driver.Accept is let through
+//	accept r=ok|fail|lost|rej (n = index of the refused item)
+//	                    the pending exporter call (one chunk of the real Batcher) is let through
 //	persist i r=ok|fail the i-th (arrival order) pending StorePipelineState
 //	tick                the virtual clock advances past the pending handler timer
 type Action struct {
@@ -49,6 +51,7 @@ type Event struct {
 	Loads   []uint64 `json:"loads,omitempty"`   // last_log_id of rows read by the manager
 	Writes  []string `json:"writes,omitempty"`  // ungated writes of the manager
 	Drivers []string `json:"drivers,omitempty"` // exporter driver lifecycle
+	Panics  []string `json:"panics,omitempty"`  // recovered panics of the real Batcher.Accept
 	W       []string `json:"w"`                 // gates waiting after the step settled
 }
 
@@ -59,6 +62,7 @@ type opResult struct {
 
 type runner struct {
 	ps      int
+	mi      int
 	s       *sched
 	w       *world
 	ctx     context.Context
@@ -88,7 +92,7 @@ func errKind(err error) string {
 }
 
 func (r *runner) newManager() {
-	r.mgr = replication.NewManager(r.w, &factory{w: r.w}, logging.NopZap(), nopValidator{},
+	r.mgr = replication.NewManager(r.w, newFactory(r.w, r.mi), logging.NopZap(), nopValidator{},
 		replication.WithSyncPeriod(100000*time.Hour),
 		replication.WithPipelineOptions(
 			replication.WithPullPeriod(2),
@@ -99,10 +103,11 @@ func (r *runner) newManager() {
 	go r.mgr.Run(r.ctx)
 }
 
-func newRunner(ps int) *runner {
+func newRunner(ps, mi int) *runner {
 	s := &sched{}
 	r := &runner{
 		ps:  ps,
+		mi:  mi,
 		s:   s,
 		w:   &world{s: s, pipelines: map[string]*ledger.Pipeline{}, obs: &stepObs{}},
 		ctx: logging.ContextWithLogger(context.Background(), logging.NopZap()),
@@ -202,7 +207,11 @@ func (r *runner) exec(a Action) Event {
 	case "fetch":
 		r.s.release(r.s.find("fetch", 0), a.R)
 	case "accept":
-		r.s.release(r.s.find("accept", 0), a.R)
+		d := a.R
+		if d == "rej" {
+			d = fmt.Sprintf("rej:%d", a.N)
+		}
+		r.s.release(r.s.find("accept", 0), d)
 	case "persist":
 		r.s.release(r.s.find("persist", a.I), a.R)
 	case "create":
@@ -240,7 +249,7 @@ func (r *runner) exec(a Action) Event {
 	}
 	r.w.mu.Lock()
 	ev.Q, ev.IDs, ev.More, ev.V, ev.Found = obs.Q, obs.IDs, obs.More, obs.V, obs.Found
-	ev.Loads, ev.Writes, ev.Drivers = obs.Loads, obs.Writes, obs.Drivers
+	ev.Loads, ev.Writes, ev.Drivers, ev.Panics = obs.Loads, obs.Writes, obs.Drivers, obs.Panics
 	r.w.mu.Unlock()
 	ev.W = r.s.snapshot()
 	return ev
@@ -279,7 +288,10 @@ func (r *runner) cleanup() (leftover []string) {
 }
 
 type caseIn struct {
-	PS     int      `json:"ps"`
+	PS int `json:"ps"`
+	// MI: `maxItems` of the exporter's batching configuration (0 = unlimited,
+	// flush on the interval only)
+	MI     int      `json:"mi"`
 	Script []Action `json:"script"`
 	// Drain: the script ends with the fair, failure-free drain phase; the C33
 	// liveness predicate (everything delivered since the last reset) applies.
@@ -313,8 +325,8 @@ func (c *replayChooser) next(r *runner) (Action, bool) {
 }
 
 // runCase must be called inside a synctest bubble.
-func runCase(ps int, ch chooser) (script []Action, out caseOut) {
-	r := newRunner(ps)
+func runCase(ps, mi int, ch chooser) (script []Action, out caseOut) {
+	r := newRunner(ps, mi)
 	for {
 		a, ok := ch.next(r)
 		if !ok {
